@@ -89,7 +89,6 @@ func (e *env) apply(c M) M {
 		if r.Op == structs.SessionCreate {
 			abstract := c["id"].(string)
 			r.Session.ID = ""
-			r.Session.LockDelay = 0
 			var id string
 			if err := e.rpc("Session.Apply", r, &id); err != nil {
 				return errRes(err)
@@ -211,24 +210,47 @@ func history(seed int64, length int, profile string, rec *recorder, ttl bool) {
 	// let the leader finish its own bootstrap writes (self registration, CA, system metadata)
 	time.Sleep(1500 * time.Millisecond)
 	e := &env{vs: vs, ctx: context.Background()}
-	g := &sh.AbsGen{R: rand.New(rand.NewSource(seed)), Store: vs.State, Profile: profile, NoReap: true, NoSerf: true, TxnKV: true}
+	g := &sh.AbsGen{R: rand.New(rand.NewSource(seed)), Store: vs.State, Profile: profile, NoReap: true, NoSerf: true, TxnKV: true, Delays: true}
 	r2 := rand.New(rand.NewSource(seed ^ 0x5eed))
+	// every history starts with the lock-delay situation that a random mix rarely lines up: a session carrying a lock
+	// delay takes a lock and is destroyed; another session then asks for the same key directly and inside a transaction
+	kvc := func(op, key, sess string) M {
+		return M{"t": "kv", "op": op, "k": keyJ(key), "v": "x", "f": float64(0), "s": sess, "li": float64(0), "mi": float64(0)}
+	}
+	script := []M{
+		{"t": "reg", "node": "n1", "nid": "", "hassvc": false, "svc": M{"id": "", "name": ""}, "haschk": false,
+			"chk": M{"id": "", "status": "", "svc": "", "typ": "", "sname": ""}},
+		{"t": "sess", "op": "create", "id": "s4", "node": "n1", "beh": "release", "checks": []any{}, "name": "", "delay": "yes"},
+		kvc("lock", "ab", "s4"),
+		{"t": "sess", "op": "create", "id": "s3", "node": "n1", "beh": "release", "checks": []any{}, "name": ""},
+		{"t": "sess", "op": "destroy", "id": "s4"},
+		kvc("lock", "ab", "s3"),
+		{"t": "txn", "ops": []any{M{"fam": "kv", "verb": "lock", "k": keyJ("ab"), "v": "y", "f": float64(0), "s": "s3", "li": float64(0), "mi": float64(0)},
+			M{"fam": "kv", "verb": "set", "k": keyJ("b"), "v": "y", "f": float64(0), "s": "", "li": float64(0), "mi": float64(0)}}},
+		kvc("lock", "b", "s3"),
+	}
 	for i := 0; i < length; i++ {
-		c := g.Next()
+		var c M
+		if i < len(script) {
+			c = script[i]
+		} else {
+			c = g.Next()
+		}
 		expire := ""
-		if ttl && r2.Intn(12) == 0 {
+		if ttl && i >= len(script) && r2.Intn(12) == 0 {
 			if live := e.liveSessions(); len(live) > 0 {
 				expire = live[r2.Intn(len(live))]
 				c = M{"t": "sess", "op": "destroy", "id": expire, "via": "ttl"}
 			}
 		}
-		if ttl && c["t"] == "sess" && c["op"] == "create" && r2.Intn(3) == 0 {
+		if ttl && i >= len(script) && c["t"] == "sess" && c["op"] == "create" && r2.Intn(3) == 0 {
 			c["ttl"] = "150ms"
 		}
 		b, _ := json.Marshal(c)
 		var cj M
 		_ = json.Unmarshal(b, &cj)
 		pre := e.project()
+		edge := sh.EdgeKeys(vs.State())
 		before := e.dump()
 		i0 := vs.LastIndex()
 		var res M
@@ -263,7 +285,7 @@ func history(seed int64, length int, profile string, rec *recorder, ttl bool) {
 			continue
 		}
 		cj["idx"] = post["idx"]
-		ev := M{"cmd": cj, "res": res, "pre": pre, "post": post,
+		ev := M{"cmd": cj, "res": res, "pre": pre, "post": post, "level": "endpoint", "edge": edge,
 			"facts": M{"dump_changed": e.dump() != before, "watch_fired": false, "events": 0},
 			"reads": e.reads(touched(cj), sh.WidePrefixes[:6])}
 		rec.emit(ev)
@@ -277,7 +299,6 @@ func (e *env) applySessionCreate(c M) M {
 	}
 	r := req.(*structs.SessionRequest)
 	r.Session.ID = ""
-	r.Session.LockDelay = 0
 	if t, ok := c["ttl"].(string); ok {
 		r.Session.TTL = t
 	}
